@@ -11,13 +11,14 @@ def run(chk):
     recs = core.run_driver_parallel('fixedpoint', tier=chk.tier, seed=chk.seed,
                                     cases=core.run_cases('fixedpoint', chk.tier, chk.seed, {}), jobs=8, timeout=3000)
     chk.validate('fixed-point', 'Trace_MM', 'Trace_MM.cfg', recs, driver='fixedpoint', jobs=14)
-    good = [r for r in recs if r['exc'] == '' and r['full'][1] >= 2][0]
+    goods = [r for r in recs if r['exc'] == '' and r['full'][1] >= 2]
+    good = goods[0]
 
     def corrupt(r):
         d = r['truth']['data']
         d[0] = (d[0] + 1) % r['full'][1]
         return r
-    core.binding_demo(chk, 'bind-argmax', 'Trace_MM', 'Trace_MM.cfg', good, corrupt, 'argmax_is_truth')
+    core.binding_demo(chk, 'bind-argmax', 'Trace_MM', 'Trace_MM.cfg', good, corrupt, 'argmax_is_truth', candidates=goods[1:])
     chk.assumptions = ['stability of the fixed point is decided per recorded execution (no theorem)',
                        'canonical parameter forms computed by the driver with NumPy']
 
